@@ -16,6 +16,11 @@ Streams
              every import form, aliases, the same function name defined in two modules and tied
              together by try/except-ImportError or if/else imports; references across files,
              announced file/package renames, behaviour = output of `python -m <main>`.
+  kwparam    the same clauses on generated programs whose parameters are passed BY KEYWORD at call
+             sites (gen/kwparams.py, props/c05_kwparams.py): positional-or-keyword, keyword-only
+             (after `*` and after `*args`, with and without default), positional-only and `**`
+             parameters of functions, methods, `__init__`, nested functions and lambdas; rename
+             from the parameter, from a use in the body and from the call-site keyword.
 """
 import ast
 import os
@@ -25,8 +30,10 @@ from common import short
 from gen import scopes as G
 from gen import multimod as GM
 from props import c05_multimod as MM
+from props import c05_kwparams as KW
+from gen import kwparams as GK
 
-MODELS = ['Scopes', 'Refs', 'RefsMulti']
+MODELS = ['Scopes', 'Refs', 'RefsMulti', 'KwBind']
 LEAN_TARGETS = ['JediModel.Props.C05', 'JediModel.Drivers.C05']
 MANIFEST = dict(
     text='Theorems: refs_sound_partial (every reported reference denotes the variable under the cursor, for '
@@ -46,7 +53,16 @@ MANIFEST = dict(
          'where find_references creates the map of non-matching references (reset_per_module_loses_references: the '
          'kernel-checked counter-model for the other placement), flow_analysis_off_then_restored. Direct oracle on '
          'generated multi-module projects on disk (every import form, aliases, re-exports, try/except and if/else ties, '
-         'file and package renames): exactness, behaviour, partition, rename-back.',
+         'file and package renames): exactness, behaviour, partition, rename-back. Keyword arguments (Model/KwBind): '
+         'keyword_goto_complete (every parameter a call keyword binds in Python - positional-or-keyword or keyword-only - is '
+         'among the answers of the named-param goto, for every signature and keyword; stated over the kind filter the '
+         'translator reads from names.py:AbstractTreeName.goto, so a filter that forgets a keyword-capable kind breaks the '
+         'build), keyword_goto_sound_partial (converse, for filters that accept keyword-capable kinds only) with the '
+         'kernel-checked witness that the unchanged filter is not sound (`**x` tied to `x=`) and the counter-model for a '
+         'filter without KEYWORD_ONLY; tie: Script.goto on the keyword of a call = the model, for all well-formed signatures '
+         'of <= 3 parameters x every keyword x function/method/__init__ (stream kwgoto). Direct oracle on generated programs '
+         'whose parameters of every kind are passed by keyword (stream kwparam) and on multi-module projects with keyword '
+         'calls across modules.',
     note='Modelled not verified: the Scopes fragment (straight-line bodies, no imports) for one module; for several '
          'modules only the scan loop is modelled (what goto answers for a token across imports is an input of the model); '
          'import resolution, file/package renames and the project-wide file search are covered by the direct oracle on '
@@ -330,10 +346,46 @@ def analyse_any(item):
         return analyse(x)
     if kind == 'attr':
         return analyse_attr(x)
+    if kind == 'kw':
+        return KW.analyse(x)
+    if kind == 'kg':
+        return KW.goto_chunk(x)
     return MM.analyse_project(x)
 
 
-COST = {'prog': 1, 'attr': 12, 'mm': 30}
+COST = {'prog': 1, 'attr': 12, 'mm': 30, 'kw': 30, 'kg': 3}
+
+
+def kwparam_items(ctx):
+    """stratified: over any 6 consecutive programs every kind of parameter stands in every kind of
+    callable; every program has the three keyword-only forms; every 4th program has one of the
+    shapes in which a call keyword is spelled like a parameter it cannot bind"""
+    items = []
+    n = ctx.size(14, 300)
+    for i in range(n):
+        k = i % len(GK.KINDS)
+        plan = {'kinds': GK.KINDS[k:] + GK.KINDS[:k]}
+        if i % 4 == 3:
+            plan['collide'] = GK.COLLIDE_KINDS[(i // 4) % len(GK.COLLIDE_KINDS)]
+        items.append({'seed': '%s-kw-%d' % (ctx.seed, i), 'plans': [plan], 'tag': 'random'})
+    for w in KW.WITNESSES:
+        items.append({'program': w, 'tag': 'witness'})
+    for w in corpus_kwparam():
+        items.append({'program': w, 'tag': 'corpus'})
+    return items
+
+
+def corpus_kwparam():
+    import glob
+    import json
+    out = []
+    for p in sorted(glob.glob(os.path.join(common.CORPUS_DIR, 'C05', '*.json'))):
+        with open(p, encoding='utf-8') as f:
+            d = json.load(f)
+        if d.get('program') == 'kwparam':
+            out.append({'source': d['source'], 'dictkeys': d.get('dictkeys', []), 'collide': d.get('collide', []),
+                        'features': ['corpus:' + os.path.basename(p)]})
+    return out
 
 
 def balanced(items, jobs=14):
@@ -359,14 +411,18 @@ def multimod_items(ctx):
     items = []
     ties = ['tie-try', 'tie-try-local', 'tie-try', 'tie-try-local', 'tie-if']
     wheres = ['main', 'sub', 'upper']
+    # the function defined in two modules takes a second parameter that call sites pass by keyword:
+    # positional-or-keyword, keyword-only after `*`, keyword-only after `*rest`, or none (as before)
+    kws = ['kwonly-star', 'pk', 'kwonly-args', None, 'kwonly-star', 'kwonly-args', 'pk']
     n_tie, n_free = ctx.size(20, 300), ctx.size(10, 150)
     for i in range(n_tie):
-        plan = {'tie': ties[i % len(ties)], 'tie_where': wheres[(i // len(ties) + i) % 3]}
+        plan = {'tie': ties[i % len(ties)], 'tie_where': wheres[(i // len(ties) + i) % 3],
+                'kw': kws[i % len(kws)], 'klass': i % 3 == 0}
         items.append({'project': GM.gen_project(rng, plan), 'tag': 'tie', 'economy': ctx.quick})
     forms = ['from-name', 'from-name-as', 'import-module', 'import-module-as', 'import-dotted',
              'from-pkg-import-sub', 'from-pkg-import-sub-as', 'relative-sub', 'relative-name']
     for i in range(n_free):
-        plan = {'import_form': forms[i % len(forms)]}
+        plan = {'import_form': forms[i % len(forms)], 'kw': kws[(i + 1) % len(kws)], 'klass': i % 2 == 0}
         items.append({'project': GM.gen_project(rng, plan), 'tag': 'free', 'economy': ctx.quick})
     for w in MM.WITNESSES:
         items.append({'project': w, 'tag': 'witness', 'economy': False})
@@ -389,23 +445,34 @@ def corpus_projects():
 
 def run(ctx):
     os.makedirs(EMPTY_PROJECT, exist_ok=True)
-    progs = programs(ctx)
-    attr_seeds = ['%s-attr-%d' % (ctx.seed, i) for i in range(ctx.size(12, 400))]
-    mm_items = multimod_items(ctx)
-    items = [['prog', p] for p, _ in progs] + [['attr', s_] for s_ in attr_seeds] + [['mm', it] for it in mm_items]
+    # debugging aid: VERIF_C05_STREAMS=kw,mm,attr,prog restricts the run to some streams (default: all)
+    only = set(filter(None, os.environ.get('VERIF_C05_STREAMS', '').split(',')))
+    progs = programs(ctx) if not only or 'prog' in only else []
+    attr_seeds = ['%s-attr-%d' % (ctx.seed, i) for i in range(ctx.size(12, 400))] if not only or 'attr' in only else []
+    mm_items = multimod_items(ctx) if not only or 'mm' in only else []
+    kw_items = kwparam_items(ctx) if not only or 'kw' in only else []
+    kg_cases = GK.goto_cases() if not only or 'kg' in only else []
+    kg_chunks = [kg_cases[i:i + 40] for i in range(0, len(kg_cases), 40)]
+    if only:
+        ctx.notes.append('RESTRICTED RUN (VERIF_C05_STREAMS=%s): not the full check' % ','.join(sorted(only)))
+    items = [['prog', p] for p, _ in progs] + [['attr', s_] for s_ in attr_seeds] + [['mm', it] for it in mm_items] \
+        + [['kw', it] for it in kw_items] + [['kg', ch] for ch in kg_chunks]
     ordered, pos = balanced(items)
     import time
     t_pool = time.time()
     res = common.parallel_map('props.c05', 'analyse_any', ordered)
-    ctx.notes.append('worker pool (%d items: %d programs, %d attribute seeds, %d projects): %.1f s wall, load %s'
-                     % (len(items), len(progs), len(attr_seeds), len(mm_items), time.time() - t_pool,
+    ctx.notes.append('worker pool (%d items: %d programs, %d attribute seeds, %d projects, %d keyword-parameter programs): '
+                     '%.1f s wall, load %s'
+                     % (len(items), len(progs), len(attr_seeds), len(mm_items), len(kw_items), time.time() - t_pool,
                         open('/proc/loadavg').read().split()[0]))
     results = [None] * len(items)
     for k, i in enumerate(pos):
         results[i] = res[k]
     outs = [fix_keys(o) for o in results[:len(progs)]]
     attr_results = results[len(progs):len(progs) + len(attr_seeds)]
-    mm_results = results[len(progs) + len(attr_seeds):]
+    mm_results = results[len(progs) + len(attr_seeds):len(progs) + len(attr_seeds) + len(mm_items)]
+    kw_results = results[len(progs) + len(attr_seeds) + len(mm_items):len(items) - len(kg_chunks)]
+    kg_results = [r for ch in results[len(items) - len(kg_chunks):] for r in ch]
     reqs = []
     how = 'jedi.Script(source).rename(line, column, new_name=...) / get_references; see harness/props/c05.py:analyse'
     for out, (_, tag) in zip(outs, progs):
@@ -420,8 +487,27 @@ def run(ctx):
             ctx.fail('oracle', what, case, expected=exp, observed=obs, how=how)
         flat = out['flat']
         reqs.append({'op': 'refs', 'scopes': [s[:2] for s in flat['scopes']], 'occs': flat['occs']})
-    if ctx.model_ok:
-        answers = common.run_driver_parallel('C05', reqs)
+    kg_reqs = [{'op': 'kwgoto', 'sig': c['sig'], 'k': c['k']} for c in kg_cases]
+    if ctx.model_ok and (reqs or kg_reqs):
+        answers = common.run_driver_parallel('C05', reqs + kg_reqs)
+        kg_answers = answers[len(reqs):]
+        answers = answers[:len(reqs)]
+        # ---- stream kwgoto: Script.goto on the keyword of a call vs Model.KwBind.gotoKeyword with the kind
+        # filter the translator reads from names.py (all well-formed signatures of <= 3 parameters x keyword x
+        # function / method / __init__)
+        for c, r, a in zip(kg_cases, kg_results, kg_answers):
+            if isinstance(a, dict) and 'error' in a:
+                raise common.InfraError('driver: %r' % a)
+            if 'raised' in r:
+                ctx.count('raised', None, nontrivial=False, bucket='kwgoto:' + r['raised'])
+                continue
+            ctx.count('kwgoto', (c['source'], c['line'], c['col']), nontrivial=bool(a['goto']),
+                      bucket='%s:%s' % (c['form'], 'binds' if a['binds'] else ('tied-not-bound' if a['goto'] else 'no-parameter')),
+                      sample={'source': c['source'], 'line': c['line'], 'column': c['col'], 'goto': r['goto']})
+            if sorted(a['goto']) != r['goto']:
+                ctx.tie_broken('correspondence:kwgoto',
+                               short({'source': c['source'], 'line': c['line'], 'column': c['col'],
+                                      'jedi (parameter indices)': r['goto'], 'model': a['goto']}, 1500))
         for out, a in zip(outs, answers):
             if isinstance(a, dict) and 'error' in a:
                 raise common.InfraError('driver: %r' % a)
@@ -445,7 +531,7 @@ def run(ctx):
                 if model_text != new_code:
                     ctx.tie_broken('correspondence:render',
                                    short({'source': out['src'], 'occ': occs[u], 'jedi': new_code, 'model': model_text}, 1500))
-    else:
+    elif reqs:
         ctx.notes.append('model did not build: correspondence skipped, oracle only')
     # ---- attribute programs: beyond the Scopes fragment, judged by the direct oracle only
     for recs in attr_results:
@@ -475,7 +561,26 @@ def run(ctx):
                       bucket='files=%d%s' % (st['n_files'], '+module' if st['n_mods'] else ''),
                       sample={k: v for k, v in case.items()})
             for what, exp, obs in st['fails']:
-                ctx.fail('multimod', what, case, expected=exp, observed=obs, how=mm_how)
+                ctx.fail('multimod', what, dict(case, clause=MM.CLAUSE[what]), expected=exp, observed=obs, how=mm_how)
+    # ---- programs with parameters passed by keyword: direct oracle only
+    kw_how = ('jedi.Script(source, project=Project(<empty dir>)).get_references(line, column, scope="file") / '
+              '.rename(line, column, new_name=...); both programs executed; `./check C05 --replay <file>` re-runs the clauses')
+    for it, outs_ in zip(kw_items, kw_results):
+        for out in outs_:
+            for b in out['raised']:
+                ctx.count('raised', None, nontrivial=False, bucket='kwparam:' + b)
+            if out['skipped']:
+                ctx.count('kwparam-program', None, nontrivial=False, bucket='skipped: ' + out['skipped'][:40])
+                continue
+            for f in out['features']:
+                ctx.count('kwparam-program', None, nontrivial=True, bucket=f)
+            for rec in out['records']:
+                cs = rec['case']
+                ctx.count('kwparam/' + it['tag'], (cs['source'], cs['line'], cs['column']), nontrivial=rec['n_refs'] > 1,
+                          bucket='refs=%d' % min(rec['n_refs'], 6),
+                          sample={k: cs[k] for k in ('source', 'line', 'column', 'name')})
+                for what, exp, obs in rec['fails']:
+                    ctx.fail('kwparam', what, dict(cs, clause=KW.CLAUSE[what]), expected=exp, observed=obs, how=kw_how)
     try:
         from translator import gen_c05
         lim = gen_c05.limits(common.REPO)
@@ -491,6 +596,9 @@ def run(ctx):
         'names of at most %d characters and projects of more than %d files are outside the stream (documented search '
         'limits of references.py)' % (GM.MIN_GLOBAL_NAME_LEN - 1, GM.MAX_FILES),
         'stream attr (attributes whose spelling coincides with parameters/locals) has no Lean model: direct oracle only',
+        'stream kwparam (parameters of every kind passed by keyword at call sites) is judged by the direct oracle; '
+        'behaviour = (printed text, class of the terminating exception) of executing the program; keywords that end up '
+        'as keys of a ** dictionary are strings: never start points, but counted when reported or rewritten',
         'fragment and flat table as for C03 (harness/gen/scopes.py); the text-level rename model is '
         '"replace the value of exactly the leaves in refs" which Props.C05.render_rename proves equal to parso\'s render',
         'behaviour = event log of an AST-instrumented execution (every name read, unique tokens for assigned constants, '
@@ -519,6 +627,8 @@ def replay(ctx, payload):
     inp = payload['input']
     if 'files' in inp:
         return MM.replay(payload)
+    if inp.get('program') == 'kwparam':
+        return KW.replay(payload)
     s = jedi.Script(inp['source'], project=jedi.Project(EMPTY_PROJECT))
     print(inp['source'])
     print('references:', [(d.line, d.column) for d in s.get_references(inp['line'], inp['column'], scope='file')])
